@@ -79,6 +79,7 @@ func init() {
 			{"xlsxMergeCell", "Rect", "mergeCellRect"},
 			{"", "bstrUnmarshal", "bstrUnmarshal"},
 			{"File", "GetRows", "GetRows"},
+			{"File", "getImageCellRel", "getImageCellRel"},
 			{"", "isOverlap", "isOverlap"},
 			{"", "mergeCell", "mergeCell"},
 			{"", "flatMergedCells", "flatMergedCells"},
